@@ -43,6 +43,10 @@ def lock_stages(profile, quick_cases, thorough_cases, thorough_r10=None):
           "max_seconds": 1500},
          {"variant": "lock_fuzz", "binary": "lock_fuzz", "replay_variant": "lock_r1", "replay_binary": "lock_harness", "profile": profile,
           "engine": "libFuzzer (coverage-guided; bytes decoded into a lock-DSL case, oracle inside the target)", "cases_per_worker": 60000, "max_seconds": 900}]
+    t += [{"variant": "lock_r1", "binary": "lock_harness", "profile": profile, "sweep": True, "extra": [], "cases_per_worker": 0, "max_seconds": 900,
+           "engine": "bounded sweep: catalogue of two-thread one-transaction programs x ALL schedules with <= 2 step-level preemptions (complete for that sub-space)"},
+          {"variant": "lock_r1", "binary": "lock_harness", "profile": profile, "sweep": True, "extra": ["--three"], "cases_per_worker": 0, "max_seconds": 1500,
+           "engine": "bounded sweep: three-thread programs over {S, SIX, X, SIX->X, X->SIX, X->SIX->X} x ALL schedules with <= 2 preemptions"}]
     return {"quick": q, "thorough": t}
 
 
